@@ -39,9 +39,11 @@ func main() {
 	}
 	cfg := lib.ParseFlags()
 	res := lib.NewResult("C15")
-	res.Rule = "a case = a generated directory layout (global loader, module loader, dependency loader over several modules, or the " +
-		"loaders internal/runtime.go builds from module_path) + a sequence of lookups through several contexts; families: corpus, " +
-		"bounded-exhaustive (every tree of 1-2 files over 8 paths x 8 contents x 3 loader kinds, 12 names x 2 contexts), seeded random " +
+	res.Rule = "a case = a generated directory layout (global loader, module loader, dependency loader over several modules, the " +
+		"loaders internal/runtime.go builds from module_path, or a chain of file-based loaders each parented by the next: environment <- module) " +
+		"+ a sequence of lookups through several contexts; families: corpus, " +
+		"bounded-exhaustive (every tree of 1-2 files over 8 paths x 8 contents x 3 loader kinds, 12 names x 2 contexts; every chain of an " +
+		"environment with 0-1 file over 4 paths x 5 contents under a module with 0-1 file over 3 paths x 4 contents, 7 names looked up three times), seeded random " +
 		"(nested namespaces, stray / upper-case / malformed / misnamed / unreadable files, type sets, cyclic references, near-miss names). " +
 		"Non-trivial = at least one lookup reads a file (a definition is instantiated or a bad file is reported); distinct = distinct " +
 		"(layout, operation sequence)"
@@ -161,7 +163,7 @@ func generate(cfg *lib.Config, rng *lib.Rng, mode000 bool) ([]Case, []bool) {
 		cases = append(cases, c)
 		toCoq = append(toCoq, true)
 	}
-	exStride, nRandom, randomCoq := 4, 1500, 900
+	exStride, nRandom, randomCoq := 4, 1800, 1000
 	if cfg.Thorough() {
 		exStride, nRandom, randomCoq = 1, 30000, 9000
 	}
@@ -170,6 +172,16 @@ func generate(cfg *lib.Config, rng *lib.Rng, mode000 bool) ([]Case, []bool) {
 		n++
 		cases = append(cases, c)
 		toCoq = append(toCoq, n%exStride == 0)
+	})
+	chStride := 2
+	if cfg.Thorough() {
+		chStride = 1
+	}
+	n = 0
+	genExhaustiveChain(func(c Case) {
+		n++
+		cases = append(cases, c)
+		toCoq = append(toCoq, n%chStride == 0)
 	})
 	for i := 0; i < nRandom; i++ {
 		cases = append(cases, genRandomCase(rng.Fork(), mode000))
